@@ -63,7 +63,8 @@ func c15Run(c *ev.Ctx) {
 		blockSize = []uint64{16384, 65536}[r.Intn(2)] // plan 5 below
 	}
 	if c.Index%16 == 9 {
-		blockSize = 131072 // a block in which an object of the largest managed size (65536) fits
+		// blocks in which an object of the largest managed size (65536) fits, powers of two or not
+		blockSize = []uint64{131072, 131072, 98304, 100000, 70000, 200000}[r.Intn(6)]
 	}
 	fh := structures.NewWritableFractalHeap(blockSize)
 	sb := testSB()
